@@ -565,6 +565,27 @@ def run_lines(exe, text, timeout=1200, env=None):
         return 124, so.splitlines(), "[timeout]"
 
 
+
+def run_lines_parallel(exe, lines, nproc=None, timeout=3000, env=None):
+    """like run_lines for a driver that prints exactly one line per input
+    line and treats lines independently: contiguous chunks run in parallel,
+    outputs are concatenated in order.  returns (rc, out_lines, stderr)"""
+    nproc = nproc or max(2, NPROC // 2)
+    if len(lines) < 4 * nproc:
+        return run_lines(exe, "\n".join(lines) + "\n", timeout=timeout, env=env)
+    size = (len(lines) + nproc - 1) // nproc
+    chunks = [lines[i:i + size] for i in range(0, len(lines), size)]
+    with concurrent.futures.ThreadPoolExecutor(len(chunks)) as ex:
+        res = list(ex.map(lambda c: run_lines(exe, "\n".join(c) + "\n", timeout=timeout, env=env), chunks))
+    rc = max(r[0] for r in res)
+    out = []
+    for c, r in zip(chunks, res):
+        if r[0] == 0 and len(r[1]) != len(c):
+            rc = rc or 3
+        out += r[1]
+    return rc, out, "".join(r[2] for r in res)[:4000]
+
+
 # ------------------------------------------------------------ bookkeeping
 def known_findings():
     """known_findings.json plus not-yet-merged per-property fragments
